@@ -29,7 +29,7 @@
 (***************************************************************************)
 EXTENDS HGBase, Json, IOUtils, TLC, TLCExt
 
-CONSTANT Bug            \* "none" | "permit_at_graphnode" | "semaphore_per_frame" | "unbounded_map"
+CONSTANT Bug            \* "none" | "permit_at_graphnode" (graph/map nodes hold a permit while their children run) | "no_permit"
 
 Plans == JsonDeserialize(IOEnv.HG_PLANS)
 
@@ -44,7 +44,8 @@ TIds   == 1..Len(Tasks)
 FIds   == 1..Len(Frames)
 Limited == K > 0
 
-NeedsPermit(t) == Limited /\ ((Tasks[t].kind = "leaf" /\ Tasks[t].permit) \/ (Bug = "permit_at_graphnode" /\ Tasks[t].kind # "leaf"))
+NeedsPermit(t) == Limited /\ Bug # "no_permit"
+                  /\ ((Tasks[t].kind = "leaf" /\ Tasks[t].permit) \/ (Bug = "permit_at_graphnode" /\ Tasks[t].kind # "leaf"))
 FrameTasks(f, s) == {t \in TIds : Tasks[t].frame = f /\ Tasks[t].step = s}
 FrameDone(f)     == fstep[f] > Frames[f].nsteps
 FrameActive(f)   == fstep[f] >= 1 /\ ~FrameDone(f)
